@@ -128,7 +128,7 @@ class C05(Check):
         rng = rng_for(seed, "C05", index)
         plan: dict[str, Any] = {"prop": "C05", "index": index}
         plan["stack"] = rng.choice(["tcp-lines", "hsfz", "doip"]) if rng.random() < 0.25 else None
-        n = rng.choice([1, 2, 2, 3, 4])
+        n = rng.choice([1, 2, 2, 3, 4] if tier == "quick" else [2, 3, 4, 5])
         callers = []
         benign = rng.random() < 0.3
         for c in range(n):
